@@ -477,6 +477,24 @@ func CheckC07(spec Spec, o *Obs, sim *Sim, orphansExpectedDone bool) error {
 		if probeDL != 1 {
 			return fmt.Errorf("the probe sent after the context of %s call #%d was done produced %d DeadLetterEvents, expected 1", kind, p.Idx, probeDL)
 		}
+		if p.Fate == "orphan" {
+			// a request that did not stop the actor itself is signalled only after the actor, stopped
+			// by something else (an earlier pill, the exhausted restart budget), has handled Stopped
+			for _, d := range sim.Deaths {
+				if d.Process != p.Process {
+					continue
+				}
+				var stopSeq int64 = -1
+				for _, e := range o.Log {
+					if e.Who == "R" && e.Kind == "Stopped" && e.Inc == d.Inc {
+						stopSeq = e.Seq
+					}
+				}
+				if stopSeq < 0 || stopSeq > done.Seq {
+					return fmt.Errorf("context of %s call #%d (not the request that stopped the actor) became done (seq %d) before incarnation %d had handled its final Stopped (seq %d)", kind, p.Idx, done.Seq, d.Inc, stopSeq)
+				}
+			}
+		}
 		if p.Fate != "effective" {
 			continue
 		}
